@@ -107,6 +107,11 @@ def render_bytes(node, knobs=None):
     k = dict(DEFAULT_KNOBS)
     k.update(knobs or {})
     enc = k['encoding']
+    if enc == 'utf-16-be':
+        # big-endian UTF-16 with a byte-order mark; the declaration names the family
+        k['decl'] = True
+        k['encoding'] = 'utf-16'
+        return b'\xfe\xff' + render(node, k).encode('utf-16-be')
     if enc == 'utf-16':
         k['decl'] = True
     if enc in ('iso-8859-1', 'us-ascii'):
